@@ -156,7 +156,7 @@ pub struct Req {
     pub keys: Vec<Vec<u8>>,
 }
 
-fn unhex(s: &str) -> Option<Vec<u8>> {
+pub fn unhex(s: &str) -> Option<Vec<u8>> {
     if s.is_empty() || s.len() % 2 != 0 {
         return None;
     }
@@ -194,7 +194,7 @@ pub fn parse(f: &[&str]) -> Option<Req> {
     })
 }
 
-fn parse_helper(spec: &str, calls: Arc<Mutex<Vec<String>>>) -> Option<Option<ScriptHelper>> {
+pub fn parse_helper(spec: &str, calls: Arc<Mutex<Vec<String>>>) -> Option<Option<ScriptHelper>> {
     if spec == "-" {
         return Some(None);
     }
@@ -247,7 +247,7 @@ pub struct RunResult {
     pub printer_msgs: usize,
 }
 
-fn outcome_of(r: &std::thread::Result<rustyline::Result<String>>) -> String {
+pub fn outcome_of(r: &std::thread::Result<rustyline::Result<String>>) -> String {
     match r {
         Err(_) => "panic".to_string(),
         Ok(Ok(l)) => format!("line:{}", enc_text(l)),
@@ -533,7 +533,7 @@ fn rand_text(rng: &mut Rng, max: usize, multiline: bool) -> String {
 }
 
 /// one emacs-mode key press (possibly a short multi-key idiom), as tokens
-fn emacs_key(rng: &mut Rng, out: &mut Vec<String>, helper: bool) {
+pub fn emacs_key(rng: &mut Rng, out: &mut Vec<String>, helper: bool) {
     match rng.below(100) {
         0..=34 => out.push(tok_char(*rng.pick(TEXT))),
         35..=49 => {
@@ -640,7 +640,7 @@ fn vi_motion(rng: &mut Rng, out: &mut Vec<String>) {
     }
 }
 
-fn vi_key(rng: &mut Rng, out: &mut Vec<String>, insert_mode: &mut bool, helper: bool) {
+pub fn vi_key(rng: &mut Rng, out: &mut Vec<String>, insert_mode: &mut bool, helper: bool) {
     if *insert_mode {
         match rng.below(100) {
             0..=54 => out.push(tok_char(*rng.pick(TEXT))),
